@@ -463,3 +463,22 @@ ASSUMPTIONS = [
     "A-JSONSCHEMA: `accepts` is the draft-07 meaning of minimum/maximum/exclusiveMinimum/exclusiveMaximum/type/minItems/maxItems (cross-validated against the installed jsonschema validator in the bounded layer)",
     "selector/objectselector/listselector schemas are proved for 0..3 arbitrary JSON-literal objects (int, float, str, None; bounded in the NUMBER of objects only), list_schema for no item class and for the literal item classes; class__schema over tuples of classes and Parameterized item classes (recursion into another class's schema), classselector_schema, array/dataframe schemas and the object-level loop of schema() are covered by the bounded layer only",
 ]
+
+
+# what is validated against the schema is the SERIALIZED state: for numbers (also NaN and the
+# infinities, which json writes as bare tokens) the serialized form is the number itself — never null,
+# which a non-nullable number schema refuses (the hooks are verified for C15)
+_c16_base_ser = contracts
+
+
+def contracts():
+    from contracts import c15 as _c15
+    extra = []
+    for c in _c15.contracts():
+        if c.name in ("Number.serialize/deserialize[float]", "Number.serialize/deserialize[int]",
+                      "Integer.serialize/deserialize[int]", "String.serialize/deserialize[str]",
+                      "Boolean.serialize/deserialize[bool]"):
+            c.prop = PROP
+            c.clause_prefixes = ["serialized form is JSON-native", "round-trip does not raise"]
+            extra.append(c)
+    return _c16_base_ser() + extra
